@@ -750,7 +750,7 @@ theorem squashSem : SquashSem := by
 
 /-! ### the builder: `squash_choice` computes `TR`-related bodies -/
 
-theorem SqOK_of_NodeOK {sg : Cx} (x : Expr) (h : NodeOK sg x) : SqOK x := by
+theorem SqOK_of_NodeOK {sg : String → Option (String × Nat)} (x : Expr) (h : NodeOK sg x) : SqOK x := by
   cases x with
   | rule n m sm b =>
     simp only [NodeOK] at h
@@ -819,11 +819,11 @@ theorem op_congr {G' : Grammar} (hu : G'.usets = G.usets) (alts : List Alt) :
     Opt.isOrderPreserving G' alts = Opt.isOrderPreserving G alts := by
   rw [Bool.eq_iff_iff, op_iff, op_iff, compat_congr G hu]
 
-variable {F : Feat} {sg : Cx}
+variable {F : Feat} {sg : String → Option (String × Nat)}
 
 theorem squashChoice_root {g : Grammar} (hu : G.usets = g.usets) (hF : F.squash = true)
-    (hsig : ∀ n, sigOf G n = sg.sig n)
-    (hG : ∀ n r, n ≠ "SKIP" → G.lookup n = some r → AllN (NodeOK ⟨sg.sig, forced r⟩) r.body)
+    (hsig : ∀ n, sigOf G n = sg n)
+    (hG : ∀ n r, G.lookup n = some r → hasBit r.mod ATOMIC = false → AllN (NodeOK sg) r.body)
     {a : Bool} {e x : Expr} (he : AllN (NodeOK sg) e) (h : Cong1 a (TR F G a) e x) :
     TR F G a e (Opt.squashChoice g x) := by
   cases h with
@@ -860,7 +860,7 @@ theorem squashChoice_root {g : Grammar} (hu : G.usets = g.usets) (hF : F.squash 
   | group h => exact .group h
   | push h => exact .push h
 
-theorem squashChoice_TR {g : Grammar} (hu : G.usets = g.usets) (hF : F.squash = true) (hinv : Inv F sg.sig G)
+theorem squashChoice_TR {g : Grammar} (hu : G.usets = g.usets) (hF : F.squash = true) (hinv : Inv F sg G)
     (a : Bool) (e : Expr) (he : AllN (NodeOK sg) e) :
     TR F G a e (Opt.mapBottomUp (Opt.squashChoice g) e) :=
   bottomUp_TR _ a (fun _ _ he h => squashChoice_root G hu hF hinv.sig hinv.lookup_nodes he h) e he
